@@ -15,14 +15,16 @@ import (
 	"strings"
 
 	"github.com/deepteams/webp/animation"
+
+	. "verifharness/hlib"
 )
 
 type c09Frame struct {
-	X, Y, W, H       int
+	X, Y, W, H        int
 	BlendNone, DispBG bool
-	HasAlpha         bool
-	Pix              []byte // RGBA, W*H*4
-	Placement        int    // 0: NRGBA at origin, 1: sub-image of a larger parent, 2: generic wrapper
+	HasAlpha          bool
+	Pix               []byte // RGBA, W*H*4
+	Placement         int    // 0: NRGBA at origin, 1: sub-image of a larger parent, 2: generic wrapper
 }
 
 type c09Anim struct {
@@ -251,8 +253,8 @@ func c09Check(c *Ctx, a *c09Anim, stream string) {
 	}
 }
 
-func init() {
-	registry["c09"] = func(c *Ctx) {
+func main() {
+	Main("c09", func(c *Ctx) {
 		c.D.Rule = "random animations (canvas 1..6 x 1..6, 1..6 frames, rectangles inside/overhanging/outside/overflowing, blend x dispose, alpha classes, three image placements) + 1x1 blend-kernel cases; non-trivial = >= 2 frames, distinct = distinct per-frame (full, overhang, blend, dispose, flag, placement) signature"
 		n := 1500
 		nb := 4000
@@ -327,5 +329,5 @@ func init() {
 			c.Count("stream:blend-kernel")
 			c.Nontrivial(fmt.Sprintf("blend:%d:%d", sa, da))
 		}
-	}
+	})
 }
